@@ -1257,6 +1257,15 @@ func (g *esGen) exercise(text string, source string) bool {
 		}
 		return false
 	}
+	// "label by label": a label names ONE row, or the rows behind the later duplicates cannot be asked for (seed C13m)
+	labelRow := map[string]int{}
+	for i, r := range s.rows {
+		if j, dup := labelRow[r.label]; dup {
+			in.fail("enginesummary:label-not-unique", fmt.Sprintf("a summary written by crem's own writer (%s, %d rows) labels rows %d and %d both %q: the engine can serve only one of them under that label (encodings %q and %q)", source, len(s.rows), j, i, r.label, s.rows[j].enc, r.enc))
+			break
+		}
+		labelRow[r.label] = i
+	}
 	c.Stat(fmt.Sprintf("summary source=%s", source))
 	c.Stat(fmt.Sprintf("summary rows=%s cols=%d actions=%d", esBucket(len(s.rows)), len(s.names)+3, in.n()))
 	res := in.do("summary " + s.opTail())
